@@ -514,7 +514,15 @@ func (s *transactionStore) Watch(ctx context.Context, ch chan<- configapi.Transa
 			s.mu.Unlock()
 		}()
 
-		defer close(ch)
+		// ch is closed exactly once, and eventCh is drained on every exit path: the store's event loop may
+		// already hold an event for this listener
+		defer func() {
+			close(ch)
+			go func() {
+				for range eventCh {
+				}
+			}()
+		}()
 
 		if options.Replay {
 			if options.TransactionID.Index > 0 {
@@ -562,7 +570,6 @@ func (s *transactionStore) Watch(ctx context.Context, ch chan<- configapi.Transa
 					transactions, err := s.getTransactions(ctx, *entry.Value)
 					if err != nil {
 						log.Error(err)
-						close(ch)
 						return
 					}
 
@@ -598,11 +605,6 @@ func (s *transactionStore) Watch(ctx context.Context, ch chan<- configapi.Transa
 			case event := <-eventCh:
 				ch <- event
 			case <-ctx.Done():
-				close(ch)
-				go func() {
-					for range eventCh {
-					}
-				}()
 				return
 			}
 		}
